@@ -346,7 +346,9 @@ func Prepare(r *core.Run, extra, race bool) (*Prepared, error) {
 			{"on", M{"type": "string", "nullable": true}}, {"l", M{"type": "array", "items": M{"type": "integer"}}}}},
 		"R200": msg(), "E4": msg(), "ED": msg(),
 		"VBody": M{"type": "object", "required": []string{"p", "m"}, "properties": orderedProps{{"p", M{"type": "string", "pattern": "^[a-z]+$"}}, {"m", M{"type": "number", "multipleOf": 0.5}},
-			{"q", M{"type": "string", "pattern": "^(a|b)+c$", "maxLength": 40}}}}}}})
+			{"q", M{"type": "string", "pattern": "^(a|b)+c$", "maxLength": 40}},
+			// patterns the RE2 converter has to hand to the backtracking engine
+			{"r", M{"type": "string", "pattern": "^(?!admin)[a-z]+$"}}, {"w", M{"type": "string", "pattern": "^(\\w+)-\\1$"}}}}}}})
 	mod, err := gencode.NewModule(r.Scratch, "mod")
 	if err != nil {
 		return nil, err
@@ -429,10 +431,16 @@ func Prepare(r *core.Run, extra, race bool) (*Prepared, error) {
 		metas = append(metas, meta{kind: "resp", vary: -1, resp: rv})
 	}
 	if extra {
-		vb := func(p string, m float64, q M) M {
-			return M{"t": "objn", "m": []any{[]any{"P", strOf(p)}, []any{"M", M{"t": "int", "n": m}}, []any{"Q", q}}}
+		vb := func(p string, m float64, q M, more ...M) M {
+			fields := []any{[]any{"P", strOf(p)}, []any{"M", M{"t": "int", "n": m}}, []any{"Q", q}}
+			if len(more) == 2 {
+				fields = append(fields, []any{"R", more[0]}, []any{"W", more[1]})
+			}
+			return M{"t": "objn", "m": fields}
 		}
-		for _, v := range []M{vb("abc", 15, absent), vb("ABC", 15, absent), vb("abc", 13, absent), vb("zz", 0, strOf("ababababc")), vb("q", 5, strOf("abababababababababababababababababab")), vb("", 10, absent)} {
+		for _, v := range []M{vb("abc", 15, absent), vb("ABC", 15, absent), vb("abc", 13, absent), vb("zz", 0, strOf("ababababc")), vb("q", 5, strOf("abababababababababababababababababab")), vb("", 10, absent),
+			vb("a", 5, absent, strOf("user"), strOf("ab-ab")), vb("a", 5, absent, strOf("administrator"), absent), vb("a", 5, absent, strOf("adm"), strOf("ab-ba")), vb("a", 5, absent, strOf("zzzzzzzzzzzzzzzzzzzzzzzzzzzzzzzz"), strOf("xyzxyzxyz-xyzxyzxyz")),
+			vb("a", 5, absent, strOf("root"), strOf("q-q")), vb("a", 5, absent, strOf("adminx"), strOf("long_word_here-long_word_here"))} {
 			calls = append(calls, dcall{Method: "Vbody", HasReq: true, Req: v, Keys: [][]string{}, Resp: &dresp{"VBody", vb("ok", 5, absent)}})
 			metas = append(metas, meta{kind: "extra", vary: -1})
 		}
